@@ -14,7 +14,7 @@
 (*   Reset / Submit{b,puts,dels} / IntroSegment{b} / Return{b}             *)
 (*   ReadBegin{c}           client c is about to issue one search          *)
 (*   ReadEnd{c,docs}        its result: docs = [[id, ver]] of ALL hits     *)
-(*   ReaderOpen{r}          a low-level reader was obtained                *)
+(*   ReaderOpenBegin{r}     a low-level reader is about to be obtained     *)
 (*   ReaderObs{r,docs,count,seq}  everything read through reader r         *)
 (*   ReaderClose{r}                                                        *)
 (***************************************************************************)
@@ -42,11 +42,20 @@ Init == /\ l = 1 /\ bt = <<>> /\ io = <<>> /\ returned = {}
 E == Trace[l]
 Replay(k) == ReplayOf(bt, io, k)
 Prefix(k) == { io[i] : i \in 1..k }
-\* the marker document tells which prefix a content is
-MarkerK(docs) == LET ms == { d \in docs : d[1] = "m" } IN
-                 IF ms = {} THEN 0
-                 ELSE LET b == (CHOOSE d \in ms : TRUE)[2] IN
-                      IF \E i \in 1..Len(io) : io[i] = b THEN CHOOSE i \in 1..Len(io) : io[i] = b ELSE Len(io) + 1
+\* Which prefix lengths can a content stand for?  With the internal value seq
+\* (readers) the prefix is the position of that batch; with the marker document
+\* "m" (version = batch number) likewise; otherwise every k whose replay equals
+\* the content.
+PosOf(b) == IF b = 0 THEN 0
+            ELSE IF \E i \in 1..Len(io) : io[i] = b THEN CHOOSE i \in 1..Len(io) : io[i] = b ELSE Len(io) + 1
+MarkerOf(docs) == LET ms == { d \in docs : d[1] = "m" } IN IF ms = {} THEN 0 - 1 ELSE (CHOOSE d \in ms : TRUE)[2]
+Cands(docs, seq) == IF seq >= 0 THEN {PosOf(seq)}
+                    ELSE IF MarkerOf(docs) >= 0 THEN {PosOf(MarkerOf(docs))}
+                    ELSE 0..Len(io)
+Good(docs, seq) == { k \in Cands(docs, seq) : k <= Len(io) /\ docs = Replay(k) }
+\* prefixes that also satisfy read-your-writes (must) and monotonicity (from)
+Fits(docs, seq, must, from) == { k \in Good(docs, seq) : must \subseteq Prefix(k) /\ k >= from }
+MinOf(S) == CHOOSE x \in S : \A y \in S : x <= y
 
 Step ==
   /\ l <= Len(Trace)
@@ -64,8 +73,11 @@ Step ==
             /\ UNCHANGED <<bt, returned, retAt, lastK, openAt, firstObs>>
        [] E.ev = "Return" -> returned' = returned \cup {E.b} /\ UNCHANGED <<bt, io, retAt, lastK, openAt, firstObs>>
        [] E.ev = "ReadBegin" -> retAt' = [retAt EXCEPT ![E.c] = returned] /\ UNCHANGED <<bt, io, returned, lastK, openAt, firstObs>>
-       [] E.ev = "ReadEnd" -> lastK' = [lastK EXCEPT ![E.c] = MarkerK(DocsOf(E.docs))] /\ UNCHANGED <<bt, io, returned, retAt, openAt, firstObs>>
-       [] E.ev = "ReaderOpen" -> openAt' = [openAt EXCEPT ![E.r] = returned] /\ firstObs' = [firstObs EXCEPT ![E.r] = NoObs]
+       [] E.ev = "ReadEnd" ->
+            /\ lastK' = [lastK EXCEPT ![E.c] = LET f == Fits(DocsOf(E.docs), 0 - 1, retAt[E.c], lastK[E.c]) IN
+                                                  IF f = {} THEN @ ELSE MinOf(f)]
+            /\ UNCHANGED <<bt, io, returned, retAt, openAt, firstObs>>
+       [] E.ev = "ReaderOpenBegin" -> openAt' = [openAt EXCEPT ![E.r] = returned] /\ firstObs' = [firstObs EXCEPT ![E.r] = NoObs]
                                  /\ UNCHANGED <<bt, io, returned, retAt, lastK>>
        [] E.ev = "ReaderObs" -> firstObs' = [firstObs EXCEPT ![E.r] = IF @ = NoObs THEN [docs |-> DocsOf(E.docs), count |-> E.count, seq |-> E.seq] ELSE @]
                                 /\ UNCHANGED <<bt, io, returned, retAt, lastK, openAt>>
@@ -79,17 +91,16 @@ IsRead == l <= Len(Trace) /\ E.ev = "ReadEnd"
 IsObs == l <= Len(Trace) /\ E.ev = "ReaderObs"
 
 \* never part of a batch, never out of order: the content is the replay of a prefix
-ReadIsPrefix == IsRead => LET d == DocsOf(E.docs) k == MarkerK(d) IN k <= Len(io) /\ d = Replay(k)
+ReadIsPrefix == IsRead => Good(DocsOf(E.docs), 0 - 1) # {}
 \* never older than a batch whose call had returned when the read began
-ReadSeesReturned == IsRead => retAt[E.c] \subseteq Prefix(MarkerK(DocsOf(E.docs)))
+ReadSeesReturned == IsRead => Fits(DocsOf(E.docs), 0 - 1, retAt[E.c], 0) # {}
 \* successive reads by one client never go backwards
-ReadsMonotonic == IsRead => MarkerK(DocsOf(E.docs)) >= lastK[E.c]
+ReadsMonotonic == IsRead => Fits(DocsOf(E.docs), 0 - 1, retAt[E.c], lastK[E.c]) # {}
 
 \* a reader is a point-in-time view: a prefix, not older than what had returned when it was obtained ...
-ReaderIsPrefix == IsObs => LET d == DocsOf(E.docs) k == MarkerK(d) IN
-                    /\ k <= Len(io) /\ d = Replay(k) /\ openAt[E.r] \subseteq Prefix(k)
+ReaderIsPrefix == IsObs => LET d == DocsOf(E.docs) IN
+                    /\ Fits(d, E.seq, openAt[E.r], 0) # {}
                     /\ E.count = Cardinality(d)
-                    /\ E.seq = (IF k = 0 THEN 0 ELSE io[k])
 \* ... and it returns identical answers for its whole lifetime
 ReaderStable == (IsObs /\ firstObs[E.r] # NoObs) =>
                     firstObs[E.r] = [docs |-> DocsOf(E.docs), count |-> E.count, seq |-> E.seq]
